@@ -1,6 +1,6 @@
 #!/venv/bin/python
 """Regression over the stored, independently written behaviour-preserving refactors (selftest/benign_indep/<id>/patch.diff and the
-near-misses selftest/near_miss/<id>/patch.diff): each is applied to a scratch copy of /repo/sigpy (never to /repo) and all 20 checks must
+near-misses selftest/near_miss/<id>/patch.diff, the structural refactors selftest/structural and the algebraic / vectorised rewrites selftest/algebraic): each is applied to a scratch copy of /repo/sigpy (never to /repo) and all 20 checks must
 stay silent (exit 0).  A refactor whose meta.json carries "documented_limitation" is expected to be reported by exactly the checks listed
 there (DESIGN.md section 9.6) and is counted separately.
 
@@ -11,7 +11,8 @@ import json, os, shutil, subprocess, sys, tempfile
 from concurrent.futures import ThreadPoolExecutor
 HERE = os.path.dirname(os.path.abspath(__file__))
 ROOT = os.path.dirname(HERE)
-DIRS = [os.path.join(ROOT, "selftest", "benign_indep"), os.path.join(ROOT, "selftest", "near_miss"), os.path.join(ROOT, "selftest", "structural")]
+DIRS = [os.path.join(ROOT, "selftest", "benign_indep"), os.path.join(ROOT, "selftest", "near_miss"), os.path.join(ROOT, "selftest", "structural"),
+        os.path.join(ROOT, "selftest", "algebraic")]
 
 
 def one(path):
